@@ -296,8 +296,26 @@ var topPrograms = func() []func() *Program {
 		mk(3, "sw", "lw"),  // wraps around
 		mk(8, "sd", "ld"),  // last eight bytes
 		mk(16, "sd", "ld"), // control: well below the top
+		// load first: the same limitation reached through Sparse.Missing
+		func() *Program {
+			p := &Program{}
+			p.add(enc("addi", 9, 0, 0, -1), "addi x9, x0, -1")
+			p.add(enc("lw", 2, 9, 0, 0), "lw x2, 0(x9)")
+			p.add(enc("addi", 3, 2, 0, 1), "addi x3, x2, 1")
+			return p
+		},
+		func() *Program {
+			p := &Program{}
+			p.add(enc("addi", 9, 0, 0, -1), "addi x9, x0, -1")
+			p.add(enc("lbu", 2, 9, 0, 0), "lbu x2, 0(x9)")
+			p.add(enc("addi", 3, 2, 0, 1), "addi x3, x2, 1")
+			return p
+		},
 	}
 }()
+
+// NTopPrograms is the number of fixed top-of-memory programs.
+var NTopPrograms = len(topPrograms)
 
 // TopProgram returns the i-th fixed top-of-memory program.
 func TopProgram(i int) *Program { return topPrograms[i%len(topPrograms)]() }
